@@ -414,9 +414,10 @@ def c12(tier):
 
 # ------------------------------------------------------------------------------------------ C13
 
-def attr_case(attr_lines, holes, variant_attr=None, extra_feats=""):
-    body = ("pub enum E { %sA = 1, B = 5, C = 9 }" if holes else "pub enum E { %sA = 1, B = 2, C = 3 }") % (
-        (variant_attr + " ") if variant_attr else "")
+def attr_case(attr_lines, holes, variant_attr=None, extra_feats="", pos=0):
+    va = (variant_attr + " ") if variant_attr else ""
+    vals = (1, 5, 9) if holes else (1, 2, 3)
+    body = "pub enum E { %s }" % ", ".join("%s%s = %d" % (va if i == pos else "", nm, v) for i, (nm, v) in enumerate(zip("ABC", vals)))
     attrs = "\n".join(attr_lines)
     return "#![allow(warnings)]\nuse enum_tools::EnumTools;\n#[derive(Clone, Copy, EnumTools)]\n%s\n#[repr(i16)]\n%s\n" % (attrs, body)
 
@@ -554,6 +555,15 @@ def c13_cases(tier):
                    "#[enum_tools(rename = -1)]", "#[enum_tools(vis = \"pub\")]", "#[enum_tools(mode = \"table\")]", "#[enum_tools(sorted)]"]:
             for feats in ("as_str", "into"):
                 bad.append(("variant-attr:%s:%s:%s" % (va, feats, holes), attr_case(["#[enum_tools(%s)]" % feats], holes, va)))
+            # several enum_tools attributes on one variant: an invalid one is rejected wherever it stands (seed C13-r6m2: only the
+            # last attribute of a variant was validated), on every variant position
+            good = "#[enum_tools(rename = \"x\")]"
+            for pos in (0, 1, 2):
+                if holes and pos == 1:
+                    continue
+                bad.append(("variant-attr-invalid-first:%s:%d:%s" % (va, pos, holes), attr_case(["#[enum_tools(as_str)]"], holes, va + " " + good, pos=pos)))
+                bad.append(("variant-attr-invalid-last:%s:%d:%s" % (va, pos, holes), attr_case(["#[enum_tools(as_str)]"], holes, good + " " + va, pos=pos)))
+            bad.append(("variant-attr-invalid-middle:%s:%s" % (va, holes), attr_case(["#[enum_tools(into)]"], holes, "/// doc\n" + good + " " + va + " #[doc = \"x\"] " + good, pos=2)))
     return ok, bad
 
 
@@ -574,7 +584,11 @@ def c14_cases(tier):
     maxn = 3 if tier == "quick" else 4
     cases = []   # (label, src, expect_ok)
     sorted_forms = [None, "sorted", "sorted(name)", "sorted(value)", "sorted(name, value)", "sorted(value, name)"]
-    for r, window in (("i8", [-3, -2, -1, 0, 1, 2]), ("u8", [0, 1, 2, 3, 4, 5])):
+    # third window: the limits of the documented domain (seed C14-r6m1: the comparison after i64::MAX was lost when a sentinel
+    # became an Option)
+    for r, window in (("i8", [-3, -2, -1, 0, 1, 2]), ("u8", [0, 1, 2, 3, 4, 5]), ("i64", [enums.I64_MIN, -1, 0, 1, enums.I64_MAX])) + (
+            (("i128", [enums.I64_MIN, enums.I64_MIN + 1, enums.I64_MAX - 1, enums.I64_MAX]),) if tier == "thorough" else ()):
+        limited = r in ("i64", "i128")
         if tier == "quick" and r == "u8":
             window = window[:4]
         for n in range(1, maxn + 1):
@@ -588,6 +602,8 @@ def c14_cases(tier):
                         for na in ("by-value", "reverse", "rename-invert", "prefix-equal", "equal-pair", "equal-last", "rename-fix",
                                    "partial-fix", "partial-break", "empty-first", "awkward-asc", "awkward-desc"):
                             if n == 1 and na != "by-value":
+                                continue
+                            if limited and na not in ("by-value", "reverse"):
                                 continue
                             if tier == "quick" and na == "prefix-equal" and n > 2:
                                 continue
